@@ -458,7 +458,7 @@ func (tc *TypeCtx) zero(x *Exec, t types.Type) Value {
 	case KArray:
 		at := t.Underlying().(*types.Array)
 		ez := tc.pack(x, tc.zero(x, at.Elem()))
-		return Value{K: k, T: t, S: "((as const " + tc.sortOf(t) + ") " + ez + ")"}
+		return Value{K: k, T: t, S: constArrayTerm(x, tc.sortOf(t), ez)}
 	case KOpaque:
 		s := tc.sortOf(t)
 		switch s {
